@@ -1909,3 +1909,52 @@ def _panic_any(m, callee, args):
 
 
 _prepend(r'(^|::)panic_fmt$|^core::panicking::|^std::rt::begin_panic|^std::panicking::|^core::panicking::panic_display', _panic_any)
+
+
+# ------------------------------------------------------------------ integer helpers and str::repeat
+def _int_args(args):
+    if any(is_sym(a) for a in args):
+        raise Unsupported('symbolic integer in an integer helper (saturating/checked/min/max)')
+    return args
+
+
+@model(r'^core::num::<impl (u|i)(8|16|32|64|128|size)>::(saturating_sub|saturating_add|wrapping_sub|wrapping_add|checked_sub|checked_add|min|max|pow|abs_diff)$')
+def _(m, callee, args):
+    mm = re.search(r'<impl (u|i)(8|16|32|64|128|size)>::(\w+)$', callee)
+    signed, bits, op = mm.group(1) == 'i', (64 if mm.group(2) == 'size' else int(mm.group(2))), mm.group(3)
+    a, b = _int_args(args[:2])
+    lo, hi = (-(1 << (bits - 1)), (1 << (bits - 1)) - 1) if signed else (0, (1 << bits) - 1)
+    if op in ('saturating_sub', 'saturating_add'):
+        r = a - b if op.endswith('sub') else a + b
+        return max(lo, min(hi, r))
+    if op in ('wrapping_sub', 'wrapping_add'):
+        r = a - b if op.endswith('sub') else a + b
+        return r % (1 << bits) if not signed else ((r - lo) % (1 << bits)) + lo
+    if op in ('checked_sub', 'checked_add'):
+        r = a - b if op.endswith('sub') else a + b
+        return some(r) if lo <= r <= hi else NONE()
+    if op == 'min':
+        return min(a, b)
+    if op == 'max':
+        return max(a, b)
+    if op == 'abs_diff':
+        return abs(a - b)
+    r = a ** b
+    if not lo <= r <= hi:
+        raise Panic('attempt to multiply with overflow')
+    return r
+
+
+@model(r'^<(usize|u\d+|i\d+|isize) as Ord>::(min|max)$|^std::cmp::(min|max)::<(usize|u\d+|i\d+|isize)>$|^core::cmp::(min|max)::<')
+def _(m, callee, args):
+    a, b = _int_args(args[:2])
+    return min(a, b) if 'min' in callee.rsplit('::', 2)[-2] + callee.rsplit('::', 1)[-1] else max(a, b)
+
+
+@model(r'str::<impl str>::repeat$|^String::repeat$|slice::<impl \[.*\]>::repeat$')
+def _(m, callee, args):
+    s = rstr(m, args[0])
+    n = args[1]
+    if is_sym(n):
+        raise Unsupported('repeat with a symbolic count')
+    return RStr(list(s.cs) * n)
